@@ -224,7 +224,12 @@ general_composite_rect  (pixman_implementation_t *imp,
 	uint32_t *s, *m, *d;
 
 	m = mask_iter.get_scanline (&mask_iter, NULL);
-	s = src_iter.get_scanline (&src_iter, m);
+	/* The mask argument lets narrow fetchers skip pixels whose 32-bit
+	 * mask value is zero. In the wide case the buffer holds four floats
+	 * per pixel, so it cannot be indexed per pixel as uint32_t.
+	 */
+	s = src_iter.get_scanline (&src_iter,
+				   width_flag == ITER_WIDE ? NULL : m);
 	d = dest_iter.get_scanline (&dest_iter, NULL);
 
 	compose (imp->toplevel, op, d, s, m, width);
